@@ -266,7 +266,31 @@ func TestC15_Stores(t *testing.T) {
 		cycles := 0
 		mutating := 0
 		b := newSUT(kind, bud, newCase("scratch"))
+		// what precedes a Clear may be anything the API accepts, including weights that vanish or overflow (the
+		// model does not follow these: the content is about to be discarded)
+		preClear := func() {
+			switch rapid.IntRange(0, 7).Draw(t, "preclear") {
+			case 0:
+				_ = a.s.Reweight(1e-200)
+				_ = a.s.Reweight(1e-200)
+				_ = a.s.Reweight(1e-200)
+				cl.logf("Reweight(1e-200) x3: every weight underflows to 0")
+				cl.label("preclear:weights-underflow-to-zero")
+			case 1:
+				i := g1.index(t)
+				a.s.AddWithCount(i, 1.5e308)
+				a.s.AddWithCount(i, 1.5e308)
+				cl.logf("AddWithCount(%d,1.5e308) x2: infinite weight", i)
+				cl.label("preclear:infinite-weight")
+			case 2:
+				_ = a.s.Reweight(1e300)
+				_ = a.s.Reweight(1e300)
+				cl.logf("Reweight(1e300) x2")
+				cl.label("preclear:infinite-weight")
+			}
+		}
 		clearBoth := func() {
+			preClear()
 			cl.logf("Clear")
 			a.s.Clear()
 			a.m.Clear()
@@ -340,6 +364,25 @@ func TestC15_Sketch(t *testing.T) {
 		var b *skUT
 		cycles, mutating := 0, 0
 		clearBoth := func() {
+			switch rapid.IntRange(0, 7).Draw(t, "preclear") {
+			case 0:
+				_ = a.s.Reweight(1e-200)
+				_ = a.s.Reweight(1e-200)
+				_ = a.s.Reweight(1e-200)
+				cl.logf("Reweight(1e-200) x3: every weight underflows to 0")
+				cl.label("preclear:weights-underflow-to-zero")
+			case 1:
+				_ = a.s.AddWithCount(a.safeV, 1.5e308)
+				_ = a.s.AddWithCount(a.safeV, 1.5e308)
+				_ = a.s.AddWithCount(-a.safeV, 1.5e308)
+				cl.logf("AddWithCount(+-%v,1.5e308): infinite weight", a.safeV)
+				cl.label("preclear:infinite-weight")
+			case 2:
+				_ = a.s.Reweight(1e300)
+				_ = a.s.Reweight(1e300)
+				cl.logf("Reweight(1e300) x2")
+				cl.label("preclear:infinite-weight")
+			}
 			cl.logf("Clear")
 			a.s.Clear()
 			a.k.clear()
